@@ -773,7 +773,8 @@ pub fn run_program(prog: Program, opts: &Opts, plan: noise::Plan) -> RunResult {
                     }
                     Err(_) => outcome = Outcome::Inconclusive("closing the pipe inputs did not return".into()),
                 }
-                let all_released = |ctx: &RunCtx| ctx.pipes.iter().all(|st| st.created.load(ORD) == 0 || (st.input_drops.load(ORD) == 1 && st.closure_drops.load(ORD) == 1));
+                let all_released = |ctx: &RunCtx| ctx.pipes.iter().enumerate().all(|(p, st)| st.created.load(ORD) == 0 || (st.input_drops.load(ORD) == 1 && st.closure_drops.load(ORD) == 1)
+                    || (ctx.prog.panics && oracle::object_panicked(ctx, ctx.prog.pipes[p].obj)));
                 if outcome == Outcome::Completed {
                     match wait_until(native, watchdog, || all_released(&ctx)) {
                         Wait::Done => {}
@@ -1103,6 +1104,7 @@ fn diagnose(ctx: &Arc<RunCtx>, objects: &[Option<Arc<Obj>>], snap: &[quiesce::Th
     }
     for (p, pd) in prog.pipes.iter().enumerate() {
         if ctx.pipes[p].created.load(ORD) == 0 || prog.mortal == Some(pd.obj) || ctx.pipes[p].stream_dropped.load(ORD) != 0 { continue; }
+        if prog.panics && oracle::object_panicked(ctx, pd.obj) { continue; }
         let waiting: Vec<OpId> = pd.items.iter().cloned().filter(|it| ctx.recs[*it].ret.load(ORD) != 0 && !ctx.recs[*it].accepted.load(ORD)).collect();
         if !waiting.is_empty() && !(pd.through && pipe_throttled(ctx, p)) {
             let prop = if pd.through { "C12" } else { "C11" };
